@@ -105,8 +105,9 @@ op_cli_run(json_t *args)
         int fd;
         if (chdir(dir) != 0)
             _exit(250);
-        fd = open(".stdin", O_RDONLY);
-        dup2(fd, 0);
+        /* the FILE object inherited from the harness still buffers the harness's own input */
+        if (!freopen(".stdin", "rb", stdin))
+            _exit(251);
         fd = open(".stdout", O_WRONLY | O_CREAT | O_TRUNC, 0600);
         dup2(fd, 1);
         fd = open(".stderr", O_WRONLY | O_CREAT | O_TRUNC, 0600);
